@@ -11,9 +11,11 @@
 
    Faithful, not tidy: the pairing loop of the complex branches takes the NEXT key of the
    uid-sorted, key-aligned vectors for the imaginary component (DESIGN 7 #13), a real result
-   reports the two components of a complex influence as two rows (#14), components(z,
-   intermediate=True) reads `.complex` of a real Node (#15), the unlabelled complex label
-   repeats the real uid ("uid(7_1,7_1)").
+   reports the two components of a complex influence as two rows (#14), the unlabelled complex
+   label repeats the real uid ("uid(7_1,7_1)").  Repaired in /repo and therefore no longer in
+   the model: components(z, intermediate=True) reading `.complex` of a real Node (#15; now
+   `.uid`), and the zero-filling of the dependent components of a complex result (the
+   key-aligned vectors now start from merge_vectors(u, d), not extend_vector(u, d)).
    Definitions only; the theorems are in BudgetFacts.v. *)
 From Coq Require Import ZArith List Bool String Ascii DecimalString.
 From GTCV Require Import Num Vector Opres KTypes Kernel.
@@ -199,9 +201,8 @@ Section Budget.
   Definition pair_uid (A : acc) (c : key * key) : ruid := UPair (a_uid A (fst c)) (a_uid A (snd c)).
 
   (* the `while True:` loop over it_re / it_im.  [skip k0 j0]: the `continue` of the
-     intermediate branch; [cbug]: components(intermediate=True) reads ir_0.complex of a Node
-     that has none.  Running out of items (StopIteration) ends the loop silently. *)
-  Fixpoint ploop (A : acc) (skip : key -> key -> bool) (cbug : bool) (re im : vec) {struct re}
+     intermediate branch.  Running out of items (StopIteration) ends the loop silently. *)
+  Fixpoint ploop (A : acc) (skip : key -> key -> bool) (re im : vec) {struct re}
     : res (list row) :=
     match re with
     | [] => Ok []
@@ -218,7 +219,7 @@ Section Budget.
               match im1 with
               | [] => Ok []
               | (j1, ui1) :: im2 =>
-                  if skip k0 j0 then ploop A skip cbug re2 im2
+                  if skip k0 j0 then ploop A skip re2 im2
                   else
                     u <- u_bar4 ur0 ur1 ui0 ui1 ;;
                     lb <- a_label A k0 ;;
@@ -226,7 +227,7 @@ Section Budget.
                                  | None => sconcat ["uid("%string; uid_str k0; ","%string; uid_str j0; ")"%string]
                                  | Some z => strip3 (lab_of_Z z)
                                  end in
-                    rs <- ploop A skip cbug re2 im2 ;;
+                    rs <- ploop A skip re2 im2 ;;
                     Ok (mkRow (Some label) u (pair_uid A cid) :: rs)
               end
             end
@@ -237,19 +238,19 @@ Section Budget.
                          | None => sconcat ["uid("%string; uid_str k0; ")"%string]
                          | Some z => lab_of_Z z
                          end in
-            if cbug then Err AttributeError
-            else
-              rs <- ploop A skip cbug re1 im1 ;;
-              Ok (mkRow (Some label) u (a_uid A k0) :: rs)
+            rs <- ploop A skip re1 im1 ;;
+            Ok (mkRow (Some label) u (a_uid A k0) :: rs)
         end
       end
     end.
 
-  (* the key-aligned vectors *)
+  (* the key-aligned vectors: merge_vectors(u, d) keeps the independent AND the dependent
+     components of a part (their key sets are disjoint), extend_vector adds the keys of the other
+     part with zeros *)
   Definition ext_re (yre yim : ureal) : vec :=
-    extend (extend (extend (uc yre) (dc yre)) (uc yim)) (dc yim).
+    extend (extend (merge (uc yre) (dc yre)) (uc yim)) (dc yim).
   Definition ext_im (yre yim : ureal) : vec :=
-    extend (extend (extend (uc yim) (dc yim)) (uc yre)) (dc yre).
+    extend (extend (merge (uc yim) (dc yim)) (uc yre)) (dc yre).
 
   Definition is_elem (o : ureal) : bool := is_elementary N o.
   Definition is_interm (o : ureal) : bool := is_intermediate N o.
@@ -295,28 +296,28 @@ Section Budget.
 
   Definition is_other (i : infl) : bool := match i with IOther => true | _ => false end.
 
-  Definition gather_complex (cbug : bool) (s : state) (ncx : ncxt) (yre yim : ureal) (o : opts)
+  Definition gather_complex (s : state) (ncx : ncxt) (yre yim : ureal) (o : opts)
     : res (list row) :=
     match o_infl o, o_interm o with
     | None, false =>
-        ploop (acc_leaf s) (fun _ _ => false) false (ext_re yre yim) (ext_im yre yim)
+        ploop (acc_leaf s) (fun _ _ => false) (ext_re yre yim) (ext_im yre yim)
     | _, true =>
         let skip := match node_key yre, node_key yim with
                     | Some nr, Some ni => fun k0 j0 => keqb k0 nr || keqb j0 ni
                     | _, _ => fun _ _ => false
                     end in
-        ploop (acc_node s ncx) skip cbug (extend (ic yre) (ic yim)) (extend (ic yim) (ic yre))
+        ploop (acc_node s ncx) skip (extend (ic yre) (ic yim)) (extend (ic yim) (ic yre))
     | Some l, false =>
         (* [i.uid for i in influences] is evaluated first *)
         if existsb is_other l then Err AttributeError else rows_infl_c s yre yim l
     end.
 
-  Definition gather (cbug : bool) (s : state) (ncx : ncxt) (y : yval) (o : opts) : res (list row) :=
+  Definition gather (s : state) (ncx : ncxt) (y : yval) (o : opts) : res (list row) :=
     if o_interm o && (match o_infl o with Some _ => true | None => false end) then Err RuntimeError
     else
       match y with
       | YReal yr => gather_real s yr o
-      | YComplex yre yim => gather_complex cbug s ncx yre yim o
+      | YComplex yre yim => gather_complex s ncx yre yim o
       | YOther => Ok []
       end.
 
@@ -377,14 +378,14 @@ Section Budget.
 
   (* ---------- reporting.budget / reporting.components ---------- *)
   Definition budget (s : state) (ncx : ncxt) (y : yval) (o : opts) : res (list row) :=
-    rows <- gather false s ncx y o ;;
+    rows <- gather s ncx y o ;;
     srt <- sort_rows (o_key o) (o_rev o) (trim_rows (o_trim o) rows) ;;
     Ok (cut_rows (o_max o) srt).
 
   Definition unlabel (r : row) : row := mkRow None (r_u r) (r_uid r).
 
   Definition components (s : state) (ncx : ncxt) (y : yval) (o : opts) : res (list row) :=
-    rows <- gather true s ncx y o ;;
+    rows <- gather s ncx y o ;;
     Ok (cut_rows (o_max o) (isort (before_u true) (trim_rows (o_trim o) (map unlabel rows)))).
 
   (* ---------- comparing with what the implementation returned ---------- *)
